@@ -394,3 +394,171 @@ theorem progress {base all : List α} (st : TS α) (hw : WF base all st) (t : Na
       rw [hl] at this; cases this
 
 end EaselModel.Containers.StackThreads
+
+namespace EaselModel.Containers.StackThreads
+open EaselModel.Containers.Stack
+variable {α : Type}
+
+theorem getElem?_set_self' (l : List (Thread α)) (t : Nat) (th x : Thread α) (h : l[t]? = some th) : (l.set t x)[t]? = some x := by
+  have htl : t < l.length := by
+    apply Classical.byContradiction; intro hn; rw [List.getElem?_eq_none (by omega)] at h; cases h
+  simp [List.getElem?_set, htl]
+
+/-- A WAITING `Pop` COMPLETES as soon as there is something to complete with: from any reachable state in which thread `t`
+    sleeps in `pthread_cond_wait`, the mutex is free, and either an item has been pushed in the meantime or `ReleaseCond` has
+    cleared `do_cond`, the three steps "wake up, re-acquire the mutex, run the critical section" are all enabled and the call
+    returns (one more answer: the item, or `eslEOD` after the release) — it does not go back to sleep -/
+theorem waiting_pop_completes {base all : List α} (st : TS α) (hw : WF base all st) (t : Nat) (th : Thread α)
+    (hth : st.threads[t]? = some th) (hph : th.phase = .waiting) (hlock : st.lock = none)
+    (hready : st.doCond = false ∨ 0 < st.stack.data.size) :
+    ∃ st' th', runSched st [.wake t, .acquire t, .body t] = some st' ∧ st'.threads[t]? = some th' ∧
+      th'.phase = .start ∧ th'.outs.length = th.outs.length + 1 ∧ st'.lock = none := by
+  have hne : th.prog ≠ [] := hw.busy t th hth (by rw [hph]; simp)
+  have hcond : (st.doCond && st.stack.data.size == 0) = false := by
+    rcases hready with h | h
+    · simp [h]
+    · have : (st.stack.data.size == 0) = false := beq_eq_false_iff_ne.mpr (by omega)
+      simp [this]
+  -- wake
+  have f1 : fire st (.wake t) = some { st with threads := st.threads.set t { th with phase := .start } } := by
+    simp [fire, hth, hph]
+  -- acquire
+  have g1 := getElem?_set_self' st.threads t th { th with phase := .start } hth
+  have f2 : fire { st with threads := st.threads.set t { th with phase := .start } } (.acquire t) =
+      some { st with lock := some t, threads := (st.threads.set t { th with phase := .start }).set t { th with phase := .holding } } := by
+    simp [fire, g1, hlock, hne]
+  have g2 := getElem?_set_self' (st.threads.set t { th with phase := .start }) t { th with phase := .start } { th with phase := .holding } g1
+  -- body
+  have hb : ∃ st3 th3, bodyOf { st with lock := some t, threads := (st.threads.set t { th with phase := .start }).set t { th with phase := .holding } }
+        { th with phase := .holding } = some (st3, th3) ∧ th3.phase = .start ∧ th3.outs.length = th.outs.length + 1 ∧ st3.lock = none ∧
+        st3.threads = (st.threads.set t { th with phase := .start }).set t { th with phase := .holding } := by
+    unfold bodyOf
+    cases hp : th.prog with
+    | nil => exact absurd hp hne
+    | cons op rest =>
+      cases op with
+      | push x =>
+        obtain ⟨s', hs, _, _⟩ := push_spec st.stack x hw.inv
+        simp only [hs]
+        exact ⟨_, _, rfl, rfl, by simp, rfl, rfl⟩
+      | pop =>
+        simp only [hcond, Bool.false_eq_true, ↓reduceIte]
+        cases hpop : pop st.stack with
+        | mk s' r =>
+          cases r with
+          | some x => exact ⟨_, _, rfl, rfl, by simp, rfl, rfl⟩
+          | none => exact ⟨_, _, rfl, rfl, by simp, rfl, rfl⟩
+      | drain =>
+        simp only [hcond, Bool.false_eq_true, ↓reduceIte]
+        cases hpop : pop st.stack with
+        | mk s' r =>
+          cases r with
+          | some x => exact ⟨_, _, rfl, rfl, by simp, rfl, rfl⟩
+          | none => exact ⟨_, _, rfl, rfl, by simp, rfl, rfl⟩
+      | release =>
+        simp only
+        split
+        · exact ⟨_, _, rfl, rfl, by simp, rfl, rfl⟩
+        · exact ⟨_, _, rfl, rfl, by simp, rfl, rfl⟩
+  obtain ⟨st3, th3, hb1, hb2, hb3, hb4, hb5⟩ := hb
+  have f3 : fire { st with lock := some t, threads := (st.threads.set t { th with phase := .start }).set t { th with phase := .holding } } (.body t) =
+      some { st3 with threads := st3.threads.set t th3 } := by
+    simp only [fire, g2, hb1]
+    simp
+  refine ⟨{ st3 with threads := st3.threads.set t th3 }, th3, ?_, ?_, hb2, hb3, hb4⟩
+  · simp only [runSched, f1, f2, f3]
+  · show (st3.threads.set t th3)[t]? = some th3
+    rw [hb5]
+    exact getElem?_set_self' _ t _ th3 g2
+
+end EaselModel.Containers.StackThreads
+
+namespace EaselModel.Containers.StackThreads
+open EaselModel.Containers.Stack
+variable {α : Type}
+
+/-- an action that makes real progress: everything except waking a sleeper that would go straight back to sleep -/
+def Useful (st : TS α) : Act → Prop
+  | .wake _ => st.doCond = false ∨ 0 < st.stack.data.size
+  | _ => True
+
+theorem body_enabled {base all : List α} (st : TS α) (hw : WF base all st) (u : Nat) (hl : st.lock = some u) :
+    (fire st (.body u)).isSome = true := by
+  have hu := hw.owner u hl
+  have hthu : st.threads[u]? = some st.threads[u] := by simp [hu]
+  have hph := (hw.excl u _ hthu).mpr hl
+  have hne := hw.busy u _ hthu (by rw [hph]; simp)
+  simp only [fire, hthu, hph, hl, and_self, ↓reduceIte]
+  have : ∃ r, bodyOf st st.threads[u] = some r := by
+    unfold bodyOf
+    cases hpr : st.threads[u].prog with
+    | nil => exact absurd hpr hne
+    | cons op rest =>
+      cases op with
+      | push x =>
+        obtain ⟨s', hs, _, _⟩ := push_spec st.stack x hw.inv
+        simp [hs]
+      | pop =>
+        simp only
+        split
+        · exact ⟨_, rfl⟩
+        · split <;> exact ⟨_, rfl⟩
+      | drain =>
+        simp only
+        split
+        · exact ⟨_, rfl⟩
+        · split <;> exact ⟨_, rfl⟩
+      | release =>
+        simp only
+        split <;> exact ⟨_, rfl⟩
+  obtain ⟨r, hr⟩ := this
+  simp [hr]
+
+/-- THE ONLY WAY TO GET STUCK: in every reachable state either all threads have finished, or an action that makes real
+    progress is enabled, or every unfinished thread sleeps in `pthread_cond_wait` on an EMPTY stack with `do_cond` still set
+    and the mutex free — the situation the documented idiom resolves by calling `esl_stack_ReleaseCond` (after which, by
+    `waiting_pop_completes`, every sleeper can return). There is no other deadlock. -/
+theorem stuck_only_when_all_asleep {base all : List α} (st : TS α) (hw : WF base all st) :
+    finished st ∨ (∃ a, (fire st a).isSome = true ∧ Useful st a) ∨
+    ((∀ (t : Nat) (th : Thread α), st.threads[t]? = some th → th.prog ≠ [] → th.phase = .waiting) ∧ st.lock = none ∧
+      st.doCond = true ∧ st.stack.data.size = 0) := by
+  cases hl : st.lock with
+  | some u => exact Or.inr (Or.inl ⟨.body u, body_enabled st hw u hl, trivial⟩)
+  | none =>
+    by_cases hs : ∃ (t : Nat) (th : Thread α), st.threads[t]? = some th ∧ th.prog ≠ [] ∧ th.phase = .start
+    · obtain ⟨t, th, hth, hp, hph⟩ := hs
+      exact Or.inr (Or.inl ⟨.acquire t, by simp [fire, hth, hl, hph, hp], trivial⟩)
+    · have hwait : ∀ (t : Nat) (th : Thread α), st.threads[t]? = some th → th.prog ≠ [] → th.phase = .waiting := by
+        intro t th hth hp
+        cases hph : th.phase with
+        | start => exact absurd ⟨t, th, hth, hp, hph⟩ hs
+        | waiting => rfl
+        | holding =>
+          have := (hw.excl t th hth).mp hph
+          rw [hl] at this; cases this
+      by_cases hfin : finished st
+      · exact Or.inl hfin
+      · by_cases hready : st.doCond = false ∨ 0 < st.stack.data.size
+        · -- some unfinished thread exists; it is asleep and can be woken usefully
+          have : ∃ th ∈ st.threads, th.prog ≠ [] := by
+            apply Classical.byContradiction
+            intro hno
+            apply hfin
+            intro th hth
+            apply Classical.byContradiction
+            intro hp
+            exact hno ⟨th, hth, hp⟩
+          obtain ⟨th, hmem, hp⟩ := this
+          obtain ⟨t, htl, rfl⟩ := List.getElem_of_mem hmem
+          have hth : st.threads[t]? = some st.threads[t] := by simp [htl]
+          have hph := hwait t _ hth hp
+          exact Or.inr (Or.inl ⟨.wake t, by simp [fire, hth, hph], hready⟩)
+        · refine Or.inr (Or.inr ⟨hwait, rfl, ?_, ?_⟩)
+          · cases hd : st.doCond with
+            | true => rfl
+            | false => exact absurd (Or.inl hd) hready
+          · apply Classical.byContradiction
+            intro hne
+            exact hready (Or.inr (by omega))
+
+end EaselModel.Containers.StackThreads
